@@ -76,7 +76,7 @@ def alias_rules(F, R, d):
             none_reg = b.reachable(none_t, avoid=[some_t])
             # Some: publish.topic assigned from the stored value before Publish::new
             for xb, xj, s in b.assigns():
-                if xb in some_reg and place_fields(s['lhs'])[-1:] == ['topic'] and new_bi in b.reachable_after(xb):
+                if xb in some_reg and (place_fields(s['lhs'])[-1:] == ['topic'] or ('*' in place_proj(s['lhs']) and (apath(b, s['lhs']) or ('',))[-1] == 'topic')) and new_bi in b.reachable_after(xb):
                     og = Origin(b, transparent=re.compile(TRANSPARENT_CALLS.pattern[:-2] + r'|branch|ok_or|ok_or_else)$')).of_operand(s['rv'].get('op')) if s['rv']['k'] == 'use' else set()
                     if any(l[0] == 'call' and (l[1].endswith('Clone>::clone') or l[1].endswith('::cloned')) for l in og):
                         ok_some = True
